@@ -2,8 +2,9 @@
 
 Histories of operations on one future of every kind, run on the real classes; the Lean model
 (AsynqModel.Lib.Futures) replays the same history (correspondence) and the Lean observer `Futures.spec`
-(the statement of C10, proved of the model for all kinds and all histories) judges the implementation's
-observations on their own.  Families judged by direct expectations in the driver (no model run): suspended, futsubs
+(the statement of C10; proved of the model for all kinds and all histories in which no subscriber raises an
+un-printable exception - C10_spec_holds_partial; the excluded histories are an OPEN FINDING the check reports with the
+signature "subscriber-exception-escapes") judges the implementation's observations on their own.  Families judged by direct expectations in the driver (no model run): suspended, futsubs
 (notification rounds of batches / items / blocking tasks, across threads, with debug options switched in mid-flight),
 futcopy (copies of ConstFuture / ErrorFuture)."""
 import hashlib
@@ -14,15 +15,16 @@ PID = "C10"
 LEVEL = "proof"
 LEAN_MODULES = ["AsynqModel.Theorems.C10"]
 # the claims of the property (each a statement over all kinds / states / histories with a proof that is more than one
-# unfolding of the model)
+# unfolding of the model); every hypothesis has a machine-checked necessity witness in Theorems/C10.lean
 HEADLINE = [
     "AsynqModel.Futures.C10_spec_holds",
+    "AsynqModel.Futures.C10_statsOk_needed",
     "AsynqModel.Futures.C10_spec_enforces_runs",
     "AsynqModel.Futures.C10_spec_enforces_outcome",
     "AsynqModel.Futures.C10_spec_enforces_read",
     "AsynqModel.Futures.C10_spec_enforces_notify",
     "AsynqModel.Futures.C10_spec_enforces_set",
-    "AsynqModel.Futures.C10_single_assignment",
+    "AsynqModel.Futures.C10_spec_enforces_stable",
     "AsynqModel.Futures.C10_stable_until_reset",
     "AsynqModel.Futures.C10_const_complete",
     "AsynqModel.Futures.C10_runs_step",
@@ -34,12 +36,15 @@ HEADLINE = [
     "AsynqModel.Futures.C10_subs_after_completion",
     "AsynqModel.Futures.C10_passive_subs_stay",
     "AsynqModel.Futures.C10_unsubscribed_not_notified",
+    "AsynqModel.Futures.C10_printable_exceptions_swallowed",
+    "AsynqModel.Futures.C10_completer_result",
+    "AsynqModel.Futures.C10_raising_subscribers_swallowed",
     "AsynqModel.Futures.C10_hook_failure_after_notification",
 ]
-# hold by construction of the model (one unfolding of `step`); audited for axioms like the others, but NOT claims about
-# the behaviour: their content is the correspondence run.  (The former C10_failed_set_noop / C10_reads_stable are now
-# the lemma `computed_step` in Proofs/Futures.lean, used by C10_stable_until_reset.)
+# hold by construction of the model (one unfolding of `step` / of the fold `firstRaise`, or an instance of a headline theorem);
+# audited for axioms like the others, but NOT claims about the behaviour: their content is the correspondence run.
 BY_CONSTRUCTION = [
+    "AsynqModel.Futures.C10_single_assignment",      # the one-operation instance of C10_stable_until_reset
     "AsynqModel.Futures.C10_unsubscribe",
     "AsynqModel.Futures.C10_set_error_none",
     "AsynqModel.Futures.C10_quiet_ops",
@@ -50,7 +55,9 @@ BUILDS = {"quick": ["py"], "thorough": ["py", "cy"]}
 RULE = ("random operation histories (length 1-40, ops value/error/call/is_computed/set_value/set_error/reset_unsafe/"
         "subscribe/unsubscribe) on each future kind (Future ok/raising/self-completing provider, ConstFuture, ErrorFuture, "
         "AsyncTask returning/raising without blocking); error token 0 = None: set_error(None) (about 1 in 8 set_error "
-        "operations) and ErrorFuture(None) (1 in 8 ErrorFutures); a subscriber is well-behaved, raising (three exception classes), one-shot "
+        "operations) and ErrorFuture(None) (1 in 8 ErrorFutures); a subscriber is well-behaved, raising (three exception classes), "
+        "raisingBad (raises an Exception whose repr() raises; about 1 in 14 subscribers of the one-future histories, never in "
+        "family futsubs), one-shot "
         "(unsubscribes itself while notified), unsubscribes another handler (earlier, later, itself, unknown), subscribes "
         "a new handler, or re-enters set_value/set_error; value and error tokens stand for exotic objects (None, 0, '', False, "
         "__eq__-always-true, an exception instance as a value, a future as a value, the future itself, an object whose "
@@ -60,8 +67,10 @@ RULE = ("random operation histories (length 1-40, ops value/error/call/is_comput
         "completions each; family 'suspended' = suspended task completed from outside; non-trivial = history that "
         "contains a completion (uncomputed -> computed) and at least 3 operations; distinct by (kind, history) hash. "
         "Round 4 (feature interactions): operations 'option perf|dump 0|1' (a debug option switched while the future is in "
-        "flight; an AsyncTask created without profiler id - or, flag badarg, called with an argument whose repr() raises - "
-        "then fails in collect_perf_stats() between 'outcome stored' and 'subscribers notified': modelled, Cfg.statsOk), "
+        "flight; flag badarg = the task is called with an argument whose repr() raises; whether collect_perf_stats() can run "
+        "for a task created before the switch / for such an argument is PROBED on the tree under test and handed to the "
+        "model as Cfg.statsOk - true on the current tree; if not, the step fails between 'outcome stored' and 'subscribers "
+        "notified': modelled, and rejected by the observer), "
         "'raiseIfError', 'inspect' (repr/str) which must not compute; family 'midflight' = every computing kind x every "
         "completer x subscriber lists x where the switch happens x second completion; flag weak = nobody but the future "
         "references the subscribers + gc.collect() before completions; futsubs: 19 more targets (debug batch cancelled / "
@@ -70,7 +79,9 @@ RULE = ("random operation histories (length 1-40, ops value/error/call/is_comput
         "applied to several functions, a body inside a scoped-value override), dimension thread (target created in another "
         "thread / completed by another thread / both; systematically for every target), dimension optswhen (1-4 of 12 debug "
         "options on for the whole case / switched on after creation+subscription / before the second round / on at creation "
-        "and off before the completion; systematically for every target); suspended: inside a scoped-value override / a user "
+        "and off before the completion; systematically for every target), after each round error(), is_computed(), "
+        "raise_if_error(), a refused set_error / set_error(None) / set_value, subscribe + unsubscribe of a late handler on the "
+        "completed target (the computed branch of the observer judges them); suspended: inside a scoped-value override / a user "
         "AsyncContext, options switched on while suspended; family 'futcopy' = ConstFuture / ErrorFuture / none_future "
         "constructed by copy.copy, copy.deepcopy, pickle protocols 0-5, __reduce__ (10 values)")
 TRUSTED = [
@@ -94,15 +105,28 @@ ASSUMPTIONS = [
     "one after the other; CONCURRENT access is out of scope); completion paths of batches and batch items are C11's model - "
     "here only their notification rounds are judged (family futsubs, same Lean clause notifiedAll, no theorem about how "
     "they complete)",
-    "what the operation that COMPLETES an AsyncTask returns when COLLECT_PERF_STATS is on and collect_perf_stats() cannot "
-    "run for that task (no profiler id because profiling was switched on after the task was created - pure Python only -, "
-    "or an argument whose repr() raises) is left open: the code hands the exception of that step to the completer AFTER "
-    "storing the outcome and notifying everybody (modelled: Exc.hook; accepted by the observer for exactly these tasks); "
-    "whether debug options may change what a call returns is C20's statement. Outcome, notifications, later reads and "
-    "refused sets are judged as always. Whether the step can run is probed once per worker on a task of its own "
-    "(perf_stats_step_fails_without_id) and handed to the model as Cfg.statsOk",
+    "collect_perf_stats() can run for every task (hypothesis `hstats` of C10_spec_holds, witness C10_statsOk_needed): "
+    "probed once per worker on the tree under test (perf_stats_step_runs: a task created before COLLECT_PERF_STATS is "
+    "switched on; a task with an argument whose repr() raises ValueError) and handed to the model as Cfg.statsOk. True on "
+    "the current tree (9ee915e, f0f10a3). If a tree makes the step fail, the model follows it (Exc.hook, after the "
+    "notifications) and the observer REJECTS the completer's answer: reported as a violation. An argument whose repr() "
+    "raises a BaseException-only error is out of scope",
+    "the computing error() of a Future whose provider raised e may RAISE e instead of returning it (Future._compute "
+    "re-raises into error(); the same outcome through the other channel; every later error() returns e; AsyncTask.error() "
+    "returns it at once) - accepted by the observer for kind lazyErr only (freshReadOk), hypothesis hk of C10_spec_enforces_read",
+    "a provider that completes ITS OWN future while it runs (kind lazySelfSet) is outside the quantifier 'providers that "
+    "return or raise': the computing read raises FutureIsAlreadyComputed while the future holds the first outcome (which "
+    "every later read reports) - modelled, accepted by the observer for that kind only (freshReadOk), hypothesis hk' of "
+    "C10_spec_enforces_read",
+    "two clauses of the observer pin today's code where the statement is silent (regression clauses, not consequences of "
+    "the text): a subscriber registered on a ConstFuture / ErrorFuture (qcore SinkingEventHook drops it) is NOT notified "
+    "when the future is reset_unsafe() and completed again; a completed AsyncTask that was reset_unsafe() answers a read with "
+    "None without running its body (its generator is gone)",
     "copies (family futcopy): values compared by == and type, errors by type and args; only ConstFuture / ErrorFuture "
-    "('complete from construction'); a deep copy / unpickled copy of an UNCOMPUTED Future is outside the statement",
+    "('complete from construction'); a deep copy / unpickled copy of an UNCOMPUTED Future is outside the statement; THAT a "
+    "copy can be made at all (verdict copy-fails) is a precondition the harness checks, not part of the statement",
+    "families futsubs / suspended / futcopy are judged by direct expectations (no model run, no theorem); futsubs never "
+    "uses a subscriber whose exception cannot be printed (the open finding is shown on the one-future kinds only)",
 ]
 KINDS = ["lazyOk", "lazyErr", "const", "error", "taskOk", "taskErr", "lazySelfSet"]
 OPS = ["value", "error", "call", "isComputed", "setValue", "setError", "reset", "subscribe", "unsubscribe",
@@ -138,13 +162,16 @@ def kind_arg(rng, kind):
     return rng.randint(0, NVALS)
 
 
-def gen_beh(rng, own, known, fresh):
-    """what subscriber `own` does while it is notified; `known` = ids subscribed so far, `fresh()` = a new id"""
+def gen_beh(rng, own, known, fresh, bad=True):
+    """what subscriber `own` does while it is notified; `known` = ids subscribed so far, `fresh()` = a new id;
+    bad = may raise an Exception whose repr() raises"""
     r = rng.random()
     if r < 0.40:
         return ["good"]
-    if r < 0.58:
+    if r < 0.51 or (r < 0.58 and not bad):
         return ["raising"]
+    if r < 0.58:
+        return ["raisingBad"]
     if r < 0.73:
         return ["oneShot"]
     if r < 0.85:
@@ -178,9 +205,9 @@ class _Ids(object):
         self.late += 1
         return self.late
 
-    def subscribe_op(self, rng, plain=False):
+    def subscribe_op(self, rng, plain=False, bad=True):
         self.n += 1
-        beh = (["raising"] if rng.random() < 0.3 else ["good"]) if plain else gen_beh(rng, self.n, self.known, self.fresh_late)
+        beh = (["raising"] if rng.random() < 0.3 else ["good"]) if plain else gen_beh(rng, self.n, self.known, self.fresh_late, bad)
         self.known.append(self.n)
         return ["subscribe", self.n] + beh
 
@@ -295,7 +322,7 @@ def midflight_cases(tier):
                                 tail = ([["option", opt, 0]] if off else []) + [list(second), ["error"], ["raiseIfError"]]
                                 res.append({"kind": [kind, 1], "ops": ops + tail, "family": "midflight"})
                 if task:
-                    # created under profiling (it has a profiler id), profiling switched off / on again in mid-flight;
+                    # created under profiling, profiling switched off / on again in mid-flight;
                     # the same with an argument that cannot be printed (the perf-stats step fails although there is an id)
                     for subs2 in sublists[1:3]:
                         sub_ops = [["subscribe", i + 1] + b for i, b in enumerate(subs2)]
@@ -312,7 +339,7 @@ def midflight_cases(tier):
 
 def subs_case(rng, target, n, thread=None, optswhen=None):
     ids = _Ids()
-    subs = [ids.subscribe_op(rng)[1:] for _ in range(n)]
+    subs = [ids.subscribe_op(rng, bad=False)[1:] for _ in range(n)]
     case = {"special": "futsubs", "target": target, "subs": subs, "nitems": rng.randint(1, 4), "which": rng.randint(0, 3),
             "v1": rng.randint(0, NVALS - 3), "e1": rng.choice(RAISABLE), "v2": rng.randint(0, NVALS - 3),
             "second": rng.choice(["setValue", "setError"]), "prior": rng.random() < 0.3, "opts": gen_opts(rng) if rng.random() < 0.12 else [],
@@ -362,7 +389,7 @@ def plan(tier, seed):
               for subs in ([0], [1, 0], [0, 1, 0]) for ctx in ("none", "scoped", "custom")
               for opts in (None, ["COLLECT_PERF_STATS"], ["DUMP_COMPUTED", "COLLECT_PERF_STATS"]) if ctx != "none" or opts]
     # every kind x every pair of subscriber behaviours (+ a plain third subscriber) x completion, reset, second completion
-    behs = [["good"], ["raising"], ["oneShot"], ["unsub", 1], ["unsub", 2], ["unsub", 3], ["resub", 500001],
+    behs = [["good"], ["raising"], ["raisingBad"], ["oneShot"], ["unsub", 1], ["unsub", 2], ["unsub", 3], ["resub", 500001],
             ["reenter", "val", 3], ["reenter", "err", 1]]
     for k in KINDS:
         if k in ("const", "error") and tier == "quick":
@@ -405,8 +432,9 @@ def suspended_case(outside, cleanup_raises, subs, ctx="none", opts=None):
 def run_suspended(case):
     """an AsyncTask that is suspended at a yield inside try/finally is completed from outside (set_value / set_error
     by the flush body of the batch it waits for); its clean-up may raise.  C10: the outcome is the outside one, set once,
-    and every subscriber is notified exactly once.  (Judged by a direct expectation: blocking tasks are not in the
-    one-future model.)"""
+    and every subscriber is notified exactly once; the outside set returns - or, if the clean-up raises, raises exactly that
+    exception after the notifications.  (Judged by a direct expectation, Drv/Futures.lean handleSuspended, mode futsusp:
+    blocking tasks are not in the one-future model.)"""
     import asynq
     from asynq import batching
 
@@ -495,8 +523,8 @@ def run_suspended(case):
     except BaseException as x:
         out2 = "err" if x is e1 else "raised-" + type(x).__name__
     asynq.scheduler.reset()
-    lines = ["(case suspended %d %s %d %d)" % (case["id"], case["outside"], 1 if case["cleanup"] else 0, len(case["subs"])),
-             "(result %s %s (%s))" % (out, out2, " ".join(seen)), "(end)"]
+    lines = ["(case futsusp %d %s %d %d)" % (case["id"], case["outside"], 1 if case["cleanup"] else 0, len(case["subs"])),
+             "(result %s %s (%s) (%s))" % (out, out2, " ".join(seen), " ".join(log)), "(end)"]
     if ctx == "scoped" and sv.get() != ("outside",):
         lines.insert(1, "(leak scoped-value-not-restored)")       # makes the case unparsable for the driver: reported
     feats = ["suspended-completed-outside", "suspended-in-context=" + ctx]
@@ -569,6 +597,11 @@ def signature(case, v):
         return "futcopy/%s/%s" % (case["what"], v["spec"])
     if case.get("special"):
         return "suspended/%s" % v["spec"]
+    if "subscriber-exception-escapes@" in v["spec"]:
+        # ONE defect (futures.py: repr(e) inside FutureBase._computed's except clause), whichever kind of future and
+        # whichever operation completes it; the Lean observer gives this name only when the subscribers it tracked
+        # predict the escape and everything else about the observation is right
+        return "subscriber-exception-escapes"
     return "%s/%s" % (case["kind"][0], v["spec"])
 
 
@@ -614,6 +647,19 @@ class HostileReprErr(Exception):
     __str__ = __repr__
 
 
+class SubBadErr(Exception):
+    """what a `raisingBad` subscriber raises: an Exception that cannot be printed (repr() and str() raise)"""
+
+    def __init__(self, env):
+        Exception.__init__(self)
+        self.env = env
+
+    def __repr__(self):
+        raise self.env.sub_repr_err
+
+    __str__ = __repr__
+
+
 class EqAll(object):
     """a value equal to everything (`_value != _none` instead of `is not` would see 'not computed')"""
 
@@ -644,8 +690,8 @@ class Hostile(object):
 
 
 class BadRepr(object):
-    """an argument of a task that cannot be printed (AsyncTask.to_str formats the arguments with %r and only expects
-    RuntimeError)"""
+    """an argument of a task that cannot be printed (AsyncTask.to_str formats the arguments with %r; since f0f10a3 it
+    falls back to a description without arguments for every Exception)"""
 
     def __init__(self, env):
         self.env = env
@@ -665,8 +711,10 @@ class Env(object):
         self.weak = weak
         self.cancel_err = None
         self.bad_repr_err = ValueError("repr of the task's argument raises")
+        self.sub_repr_err = RuntimeError("repr of the subscriber's exception raises")
         if share is not None:      # a second future watched in the same case: same objects, own log and handlers
             self.vals, self.errs = share.vals, share.errs
+            self.sub_repr_err = share.sub_repr_err
             self.weak = share.weak
             self.cblog, self.handlers = [], {}
             self._index()
@@ -717,8 +765,10 @@ class Env(object):
             return "(raised user %d)" % self.err_tok[id(e)]
         if e is self.cancel_err and e is not None:
             return "(raised user 7)"
+        if e is self.sub_repr_err:
+            return "(raised subRepr)"   # repr() of a subscriber's exception, raised inside FutureBase._computed's except clause
         if (type(e) is AttributeError and "_id" in str(e)) or e is self.bad_repr_err:
-            return "(raised hook)"      # AsyncTask.collect_perf_stats() of a task without profiler id / unprintable argument
+            return "(raised hook)"      # AsyncTask.collect_perf_stats() could not run for the task
         if isinstance(e, self.futures.FutureIsAlreadyComputed):
             return "(raised alreadyComputed)"
         if isinstance(e, NotImplementedError):
@@ -748,6 +798,8 @@ class Env(object):
             env.cblog.append(rec)
             if kind == "raising":
                 raise (RuntimeError, FalsyErr, EqAllErr)[sid % 3]("subscriber %d raises" % sid)
+            if kind == "raisingBad":
+                raise SubBadErr(env)
             if kind == "oneShot":
                 f.on_computed.unsubscribe(cb)
             elif kind == "unsub":
@@ -820,34 +872,43 @@ def run_case(case):
 _PROBE = {}
 
 
-def perf_stats_step_fails_without_id():
-    """does `collect_perf_stats()` of an AsyncTask that was created while COLLECT_PERF_STATS was off raise when the task
-    completes under COLLECT_PERF_STATS?  (pure Python: AttributeError, the task has no `_id`; compiled: no.)  A fact about
-    the profiler, not about futures: probed once per worker on a task of its own and handed to the model as `Cfg.hasId`."""
-    if "fails" not in _PROBE:
+def perf_stats_step_runs():
+    """can `collect_perf_stats()` run (a) for an AsyncTask that was created while COLLECT_PERF_STATS was off and completes
+    under it, (b) for a task called with an argument whose repr() raises ValueError?  Facts about the profiler, not about
+    futures: probed once per worker on tasks of its own and handed to the model as `Cfg.statsOk` (both True on the current
+    tree; a tree on which one is False makes the model predict Exc.hook, which the observer rejects)."""
+    if "noid" not in _PROBE:
         import asynq
         from asynq import _debug
+
+        class Unprintable(object):
+            def __repr__(self):
+                raise ValueError("repr of the probe's argument raises")
+
         old = _debug.options.COLLECT_PERF_STATS
-        _debug.options.COLLECT_PERF_STATS = False
         try:
-            @asynq.asynq()
-            def body():
-                return 1
-                yield
-            t = body.asynq()
-            _debug.options.COLLECT_PERF_STATS = True
-            try:
-                t.value()
-                fails = False
-            except AttributeError as e:
-                fails = "_id" in str(e)
-            except BaseException:  # noqa
-                fails = False
+            for key, arg, early in (("noid", 1, True), ("badarg", Unprintable(), False)):
+                _debug.options.COLLECT_PERF_STATS = not early
+                try:
+                    @asynq.asynq()
+                    def body(a):
+                        return 1
+                        yield
+                    t = body.asynq(arg)
+                    _debug.options.COLLECT_PERF_STATS = True
+                    try:
+                        t.value()
+                        ok = True
+                    except (AttributeError, ValueError):
+                        ok = False
+                    except BaseException:  # noqa  (anything else is not this step's failure; the cases will show it)
+                        ok = True
+                finally:
+                    asynq.scheduler.reset()
+                _PROBE[key] = ok
         finally:
             _debug.options.COLLECT_PERF_STATS = old
-            asynq.scheduler.reset()
-        _PROBE["fails"] = fails
-    return _PROBE["fails"]
+    return _PROBE
 
 
 def run_case1(case):
@@ -864,10 +925,10 @@ def run_case1(case):
     env = Env(futures, weak=bool(case.get("weak")))
     vals, errs, vt, et = env.vals, env.errs, env.vt, env.et
     perf0 = "COLLECT_PERF_STATS" in (case.get("opts") or [])
-    # can collect_perf_stats() of the task run?  AsyncTask.__init__ stores a profiler id only under COLLECT_PERF_STATS (the
-    # compiled class always has the field), and to_str() formats the arguments with %r
+    # can collect_perf_stats() of the task run?  probed on the tree under test (see perf_stats_step_runs)
     badarg = bool(case.get("badarg")) and case["kind"][0] in ("taskOk", "taskErr")
-    has_id = (perf0 or not perf_stats_step_fails_without_id()) and not badarg
+    probe = perf_stats_step_runs()
+    stats_ok = (perf0 or probe["noid"]) and (not badarg or probe["badarg"])
     task_args = (BadRepr(env),) if badarg else ()
     runs = [0]
     kind, arg = case["kind"]
@@ -914,7 +975,7 @@ def run_case1(case):
     env.set_self(fut)
 
     lines = ["(case futures %d %s %d %d %d)" % (case["id"], "errorNone" if (kind, arg) == ("error", 0) else kind, arg,
-                                                 1 if has_id else 0, 1 if perf0 else 0)]
+                                                 1 if stats_ok else 0, 1 if perf0 else 0)]
     completions = 0
     behs = set()
     was = fut.is_computed()
@@ -998,7 +1059,9 @@ def run_case1(case):
     if case.get("family"):
         feats.append("family=" + case["family"])
     if midflight:
-        feats.append("task-completed-under-profiling-switched-on-in-flight" + ("" if has_id else "/perf-stats-step-fails"))
+        feats.append("task-completed-under-profiling-switched-on-in-flight" + ("" if stats_ok else "/perf-stats-step-fails"))
+    if any("(raised subRepr)" in ln for ln in lines):
+        feats.append("completer-got-the-exception-of-repr(subscriber's exception)")
     if badarg:
         feats.append("task-with-unprintable-argument" + ("/completed-under-profiling" if perf_seen and completions else ""))
     if env.weak:
@@ -1039,7 +1102,9 @@ def run_futsubs(case):
     pure=True, async_call, a bound method of a copied object, one decorator object shared by several functions, a body
     inside a scoped-value override), a Future awaited by a task.
     Round 1 = the natural completion path of the target, round 2 = reset_unsafe() + set_value / set_error from outside.
-    After each round: a second set must raise FutureIsAlreadyComputed, value() and call must report the outcome.
+    After each round: a second set must raise FutureIsAlreadyComputed, value() and call must report the outcome, and so
+    must error(), is_computed(), raise_if_error(), a refused set_error / set_error(None) / set_value, a late handler
+    subscribed and removed again (never notified), a last value().
     Dimensions: `thread` (the target is created in another thread / completed by another thread / both),
     `optswhen` (debug options on for the whole case / switched on after creation+subscription / before round 2 /
     on at creation and off before the completion), `weak` (nobody but the future keeps the subscribers alive)."""
@@ -1352,9 +1417,48 @@ def run_futsubs(case):
                     reads.append("(ok %d)" % env_k.vt(rd()))
                 except BaseException as e:  # noqa
                     reads.append(env_k.exc_res(e))
-            if env_k.cblog:   # nobody may be notified by the failed set or by the reads
+            # further operations on the completed target (judged by the computed branch of the Lean observer): error(),
+            # is_computed(), raise_if_error(), ONE refused set (set_error / set_error(None) / set_value, varying with the
+            # case and the round), a late handler subscribed and removed again, a last value()
+            late = 700001 + len(lines_k)
+            todo = [["error"], ["isComputed"]]
+            if hasattr(fut_k, "raise_if_error"):
+                todo.append(["raiseIfError"])
+            todo.append([["setError", case["e1"]], ["setError", 0], ["setValue", 2]][(case["which"] + len(lines_k)) % 3])
+            todo += [["subscribe", late, "good"], ["unsubscribe", late], ["value"]]
+            more = []
+            for op in todo:
+                try:
+                    if op[0] == "error":
+                        e = fut_k.error()
+                        r = "(errIs none)" if e is None else "(errIs %d)" % env_k.et(e)
+                    elif op[0] == "isComputed":
+                        r = "(bool %d)" % (1 if fut_k.is_computed() else 0)
+                    elif op[0] == "raiseIfError":
+                        fut_k.raise_if_error()
+                        r = "(unit)"
+                    elif op[0] == "setError":
+                        fut_k.set_error(errs[op[1]])
+                        r = "(unit)"
+                    elif op[0] == "setValue":
+                        fut_k.set_value(vals[op[1]])
+                        r = "(unit)"
+                    elif op[0] == "subscribe":
+                        fut_k.on_computed.subscribe(env_k.make_cb(op[1], ["good"]))
+                        r = "(unit)"
+                    elif op[0] == "unsubscribe":
+                        fut_k.on_computed.unsubscribe(env_k.handler(op[1]))
+                        r = "(unit)"
+                    else:
+                        r = "(ok %d)" % env_k.vt(fut_k.value())
+                except BaseException as e:  # noqa
+                    if type(e).__name__ == "CaseTimeout":
+                        raise
+                    r = env_k.exc_res(e, unsub=(op[0] == "unsubscribe"))
+                more.append("((%s) %s)" % (op_str(op), r))
+            if env_k.cblog:   # nobody may be notified by the failed sets, the reads or the late subscription
                 cbs += " " + env_k.take_cbs()
-            lines_k.append("(round %s (%s) %s %s %s %s)" % (out, cbs, again, reads[0], reads[1], expected))
+            lines_k.append("(round %s (%s) %s %s %s %s (%s))" % (out, cbs, again, reads[0], reads[1], expected, " ".join(more)))
 
     if optswhen == "mid":
         set_opts(True)
